@@ -13,6 +13,7 @@ class RenderDriver(Driver):
     docs_per_case = 10
     n_cases = {"quick": 60, "thorough": 2000}
     color_tol = 4e-3
+    steep_probe = None
     ndigits_choices = (3,)
     nontrivial_min_points = 30
     time_budget = {"quick": 150, "thorough": 1200}
@@ -80,7 +81,7 @@ class RenderDriver(Driver):
             if self.mode == "stack":
                 st = conv.compare_stacks(src, dst, pts, eps)
             else:
-                st = conv.compare_colors(src, dst, pts, eps, self.color_tol)
+                st = conv.compare_colors(src, dst, pts, eps, self.color_tol, self.steep_probe)
         except RR.RefError as e:
             bump(res["counters"], "reference_out_of_subset")
             return None
@@ -135,7 +136,7 @@ class RenderDriver(Driver):
             if status == "ok":
                 src, dst = RR.build(rp["doc"]), RR.build(out)
                 eps = self.eps_frac * max(src.viewbox[2], src.viewbox[3])
-                f = conv.compare_stacks if self.mode == "stack" else (lambda a, b, p, e: conv.compare_colors(a, b, p, e, self.color_tol))
+                f = conv.compare_stacks if self.mode == "stack" else (lambda a, b, p, e: conv.compare_colors(a, b, p, e, self.color_tol, self.steep_probe))
                 st = f(src, dst, [tuple(rp["point"])], eps)
                 if st["mismatch"]:
                     res["viol"].append(dict(rule="render_mismatch", msg=str(st["mismatch"])))
